@@ -80,7 +80,7 @@ func lruModel(capacity int) porcupine.Model {
 			case 'N':
 				return m.Len() == o.Len, st
 			default:
-				return m.Dump() == o.Dump, st
+				return !dumpUsable() || m.Dump() == o.Dump, st
 			}
 		},
 		Equal: func(a, b interface{}) bool {
@@ -130,7 +130,7 @@ func applyLRU(c *valid.LRUCache, in lruIn) (out lruOut, pan interface{}) {
 	case 'N':
 		out.Len = c.Len()
 	case 'P':
-		out.Dump = c.Dump()
+		out.Dump = normDump(c.Dump())
 	}
 	return
 }
@@ -431,12 +431,7 @@ func c10Large(c *core.Ctx) {
 							atomic.AddInt64(&badLen, 1)
 						}
 					default:
-						d := cache.Dump()
-						lines := 0
-						if d != "" {
-							lines = strings.Count(d, "\n") + 1
-						}
-						if lines > capacity {
+						if lines := dumpLines(cache.Dump()); dumpUsable() && lines > capacity {
 							atomic.AddInt64(&badDump, 1)
 						}
 					}
@@ -475,11 +470,8 @@ func c10Large(c *core.Ctx) {
 			res.Violate("C10|len-out-of-range|quiescent", fmt.Sprintf("at quiescence Len()=%d with capacity %d", l, capacity), wit)
 		}
 		d := cache.Dump()
-		lines := 0
-		if d != "" {
-			lines = strings.Count(d, "\n") + 1
-		}
-		if lines != l {
+		lines := dumpLines(d)
+		if dumpUsable() && lines != l {
 			res.Violate("C10|dump-vs-len|quiescent", fmt.Sprintf("at quiescence Dump lists %d entries, Len()=%d", lines, l), wit)
 		}
 		removed := map[int]int{}
